@@ -326,12 +326,67 @@ def constant_precision(rep, rule="L7"):
     rep.floor("float-to-text conversions in the artefact writers", n, 1)
 
 
+L8_UNITS = ("fint.c", "xfloat.c", "foam.c", "buffer.c", "foam_c.c")
+L8_MEM = ("memcmp", "memcpy", "memmove", "memset", "bcmp", "bcopy", "strncmp", "strncpy")
+
+
+def l8(rep):
+    """A constant travels as a fixed number of bytes (XSFLOAT_BYTES = 6, XDFLOAT_BYTES = 10).  Wherever those bytes are held in
+    an array and looked at with memcmp/memcpy, the length used is the length held: a comparison of the first 6 bytes of a
+    10-byte encoding calls two double constants equal when they agree in sign, exponent and the top 32 fraction bits, and a
+    value remembered under that test is handed out for its neighbour (1.0000000000000002 reads as 1.0).  In the units that
+    read and write float constants, every mem*/strn* call on a local or static array of constant size with a constant length
+    uses the array's size."""
+    nfun = n = 0
+    bad = []
+    for unit in L8_UNITS:
+        f = common.extract(unit, all_trees=True)
+        for name, fn in sorted(f.funcs.items()):
+            if "body" not in fn or not fn.get("file", "").endswith(unit):
+                continue
+            nfun += 1
+            arrs = {}
+            for x in walk(fn["body"]):
+                if x["k"] == "DeclStmt":
+                    for d in x.get("decls", []):
+                        if d.get("bound") is not None:
+                            esz = 1
+                            t = d.get("t") or ""
+                            arrs[d["n"]] = (d["bound"], t)
+            if not arrs:
+                continue
+            for c in common.calls(fn["body"]):
+                if c.get("callee") not in L8_MEM or len(c["c"]) < 4:
+                    continue
+                ln = const_value(c["c"][3])
+                if ln is None:
+                    continue
+                for a in c["c"][1:3]:
+                    a_ = strip(a)
+                    if a_ is not None and a_["k"] == "DeclRefExpr" and a_["n"] in arrs:
+                        bound, t = arrs[a_["n"]]
+                        if not ("char" in t or "Byte" in t):
+                            continue                   # lengths of wider elements are in bytes, bounds in elements
+                        n += 1
+                        if ln != bound:
+                            bad.append((unit, name, c["l"], c["callee"], a_["n"], bound, ln))
+    for unit, name, line, callee, arr, bound, ln in bad:
+        rep.violation("L8", "length-is-the-length-held:%s:%s:%s" % (unit, name, arr), "%s:%d (%s)" % (unit, line, name),
+                      "%s looks at %d bytes of `%s`, which holds %d: the rest of the encoding is ignored (for a double constant "
+                      "kept in its 10-byte portable form, the low 20 bits of the fraction), so two neighbouring constants count "
+                      "as the same and one is handed out for the other" % (callee, ln, arr, bound))
+    rep.floor("functions of the float-constant units scanned for byte counts", nfun, 300)
+    if not bad:
+        rep.ok("L8", "length-is-the-length-held", sample={"functions": nfun, "constant-length calls on byte arrays": n})
+
+
 def run(tier, only=None):
     rep = common.Report("C19", tier, EXPLANATION)
     # ---- L5 and L4 first: they need nothing from C04 ----
     l5(rep)
     sentinels(rep, "L6")
     constant_precision(rep, "L7")
+    l8(rep)
     deferred = None
     try:
         l4(rep)
